@@ -1084,6 +1084,16 @@ class BlockwiseRequest(BaseUnicastRequest, interfaces.Request):
     ):
         # FIXME this can probably be deduplicated against BlockwiseRequest
 
+        if initial_response.opt.block2 is not None:
+            # Unless the application asked for a particular block itself, the
+            # response to the initial request has to start the body; a later
+            # block, even a final one, must not pass as the complete body.
+            requested = request_to_repeat.opt.block2
+            expected_number = requested.block_number if requested is not None else 0
+            if initial_response.opt.block2.block_number != expected_number:
+                log.error("Error assembling blockwise response (expected first block)")
+                raise error.UnexpectedBlock2()
+
         if (
             initial_response.opt.block2 is None
             or initial_response.opt.block2.more is False
